@@ -178,54 +178,69 @@ theorem bosInit_spec (n : Nat) : ∀ (cs : List Cmd) (s : PS D), PSInv s →
     | gate k => simpa [newCount, hop] using ih s hs
     | measure => simpa [newCount, hop] using ih s hs
 
-/-- **bosonic back end, first non-empty segment**: every command sequence (with `New`s anywhere) that the abstract
-rows accept from `n` vacuum modes is executed by `run_prog` without raising, whatever the simulator held before, and
-ends in a well-formed simulator representing the abstract result -/
-theorem bosRun_first_segment (n : Nat) (cs : List Cmd) (b : PS D) (r' : Rows D) (hne : cs ≠ [])
+/-- the initialisation pass followed by the main loop, for any command sequence the rows accept from `n` vacuum modes -/
+theorem bosLoop_first (n : Nat) (cs : List Cmd) (r' : Rows D)
     (hr : Rows.run cs (List.replicate n (some (DataSem.vac : D))) = some r') :
-    ∃ s', PS.bosRun n cs b = .ok s' ∧ PSInv s' ∧ s'.abs = r' := by
-  unfold PS.bosRun
-  have he : cs.isEmpty = false := by cases cs <;> simp_all
-  simp only [he, Bool.false_eq_true, if_false]
+    ∃ s', PS.bosLoop cs (PS.bosInit n cs : PS D) = .ok s' ∧ PSInv s' ∧ s'.abs = r' := by
   obtain ⟨h1, h2⟩ := bosInit_spec n cs (PS.begin n : PS D) (PS.begin_inv n)
   rw [PS.begin_abs] at h2
   exact bosLoop_refines cs _ _ r' h1 h2 hr
-/-- **bosonic back end, whole first segment of a history**: after any sequence of program-building events on a new
-engine, `eng.run` succeeds and program register, `get_modes()` and the live set coincide; the returned state is the
-abstract state -/
-theorem bos_first_segment_hist (n : Nat) (s : Sys (PS D)) (es : List Ev) (hinit : Sys.init (bosOps D) n = .ok s)
-    (hes : es.all Ev.isProg = true) :
-    ∃ s', step (bosOps D) (runHist (bosOps D) s es) .endProg = .ok s' ∧
-      s'.prog.register = Rows.live (aRunHist (List.replicate n (some (DataSem.vac : D))) es) ∧
-      PS.getModes s'.be = Rows.live (aRunHist (List.replicate n (some (DataSem.vac : D))) es) ∧
-      PS.stateNone s'.be = .ok (Rows.state 0 (aRunHist (List.replicate n (some (DataSem.vac : D))) es)) := by
-  obtain ⟨hsim0, hprev0⟩ := init_sim (o := bosOps D) (abs := PS.abs) (Inv := PSInv) PS.begin_inv PS.begin_abs hinit
-  obtain ⟨hsim, hprev⟩ := runHist_sim_prog es s _ hes hsim0
-  generalize runHist (bosOps D) s es = t at hsim hprev
-  generalize aRunHist (List.replicate n (some (DataSem.vac : D))) es = a at hsim
-  rw [hprev0] at hprev
-  have hstart : engineStart (bosOps D) t = .ok (PS.begin t.prog.initNum) := by
-    have := hsim.startOk
-    unfold engineStart
-    simp only [hprev] at this ⊢
-    simp [this, bosOps]
-  have hbase : baseBe (bosOps D) t = PS.begin t.prog.initNum := by
-    unfold baseBe; simp only [hprev]; rfl
-  have hrun := hsim.run
-  rw [hbase, PS.begin_abs] at hrun
-  have hb : ∃ b1, PS.bosRun t.prog.initNum t.prog.circuit (PS.begin t.prog.initNum) = .ok b1 ∧ PSInv b1 ∧ b1.abs = a := by
-    by_cases hc : t.prog.circuit = []
-    · rw [hc] at hrun ⊢
-      simp only [Rows.run, Option.some.injEq] at hrun
-      exact ⟨PS.begin t.prog.initNum, by simp [PS.bosRun, PS.bosLoop], PS.begin_inv _, by rw [PS.begin_abs]; exact hrun⟩
-    · exact bosRun_first_segment _ _ _ a hc hrun
-  obtain ⟨b1, hb1, hi1, ha1⟩ := hb
-  have hb1' : (bosOps D).runProg t.prog.lock.initNum t.prog.lock.circuit (PS.begin t.prog.initNum) = .ok b1 := hb1
-  refine ⟨⟨t.prog.lock.child, some t.prog.lock.regRefs, b1⟩, ?_, ?_, ?_, ?_⟩
-  · simp only [step, engineRun, hstart, hb1']
-  · have := sim_register hsim
-    simpa [Prog.child, Prog.lock, Prog.register] using this
-  · simp only; rw [PS.getModes_live b1 hi1, ha1]
-  · simp only; rw [PS.stateNone_exact b1 hi1, ha1]
+
+/-- invariant of (bosonic simulator, "a non-empty segment was run since `begin_circuit`"): as long as nothing was run the
+simulator holds vacuum modes only (so that the initialisation pass of the first non-empty segment, which starts from a
+new simulator, loses nothing) -/
+def BosInv (b : PS D × Bool) : Prop :=
+  PSInv b.1 ∧ (b.2 = false → ∃ k, b.1.abs = List.replicate k (some (DataSem.vac : D)))
+
+/-- **the bosonic back end refines the rows** (after the fix of the per-segment re-initialisation): first non-empty
+segment through `init_circuit` with the `New`s hoisted, later segments command by command, empty programs do nothing -/
+theorem bosRefines : Refines (bosOps D) (fun b => PS.abs b.1) (BosInv (D := D)) where
+  begin_inv := fun n => ⟨PS.begin_inv n, fun _ => ⟨n, PS.begin_abs n⟩⟩
+  begin_abs := PS.begin_abs
+  getModes := fun b hb => PS.getModes_live b.1 hb.1
+  state := fun b hb => PS.stateNone_exact b.1 hb.1
+  run := by
+    intro n cs b r' hb hn hr
+    obtain ⟨s, c⟩ := b
+    simp only [bosOps, PS.bosRun]
+    by_cases he : cs.isEmpty = true
+    · have : cs = [] := by cases cs <;> simp_all
+      subst this
+      simp only [Rows.run, Option.some.injEq] at hr
+      exact ⟨(s, c), by simp, hb, hr⟩
+    · simp only [he, Bool.false_eq_true, if_false]
+      cases c with
+      | true =>
+        obtain ⟨s', h1, h2, h3⟩ := PS.runCircuit_refines cs s hb.1 r' hr
+        exact ⟨(s', true), by simp [h1], ⟨h2, by simp⟩, h3⟩
+      | false =>
+        obtain ⟨k, hk⟩ := hb.2 rfl
+        have hnk : n = k := by
+          simp only at hn
+          rw [hn, hk, live_replicate_length]
+        simp only at hr
+        rw [hk, ← hnk] at hr
+        obtain ⟨s', h1, h2, h3⟩ := bosLoop_first n cs r' hr
+        exact ⟨(s', true), by simp [h1], ⟨h2, by simp⟩, h3⟩
+/-- **`MSgate(avg=False)`**: the ancilla that `mb_squeeze_single_shot` adds, measures and removes leaves the mode
+bookkeeping exactly as it was — `nlen`, `active` (deleted modes stay deleted) and the stored rows — for every live
+target on every simulator state; a deleted or unknown target is rejected -/
+theorem PS.msSingleShot_ok (s : PS D) (h : PSInv s) (k : Nat) (hl : Rows.liveAt s.abs k = true) :
+    s.msSingleShot k = .ok s := by
+  have hc := (PS.check_iff s h k).2 hl
+  obtain ⟨ini, nlen, active, rows⟩ := s
+  have hla : active.length = nlen := h.la
+  have hlr : rows.length = nlen := h.lr
+  have hchk : PS.check (⟨ini, nlen + 1, active ++ [some nlen], rows ++ [DataSem.vac]⟩ : PS D) nlen = .ok () := by
+    simp [PS.check, List.getElem?_append_right, hla]
+  simp only [PS.msSingleShot, hc]
+  simp [PS.delMode, PS.addMode, hchk, hla, hlr, List.take_append_of_le_length, List.set_append_right,
+    List.take_of_length_le]
+
+theorem PS.msSingleShot_rejects (s : PS D) (h : PSInv s) (k : Nat) (hd : Rows.liveAt s.abs k = false) :
+    ∃ e, s.msSingleShot k = .error e := by
+  cases hc : s.check k with
+  | error e => exact ⟨e, by simp [PS.msSingleShot, hc]⟩
+  | ok u => rw [(PS.check_iff s h k).1 hc] at hd; cases hd
 end Bos
 end SFV.Reg
